@@ -539,6 +539,55 @@ pub fn dtfrom_line(out: &mut impl Write, z: &TimeZoneRef<'_>, u: i64, ns: u32) {
     writeln!(out, "dtfrom {} {} => {}", u, ns, ans).unwrap();
 }
 
+/// `project`: a date-time built from fields (second 60 allowed) under some local time type, projected into the zone
+pub fn project_line(out: &mut impl Write, z: &TimeZoneRef<'_>, f: Fields, l: LocalTimeType) {
+    let z = *z;
+    let ans = guarded(move || match DateTime::new(f.0, f.1, f.2, f.3, f.4, f.5, f.6, l).and_then(|d| d.project(z)) {
+        Ok(p) => dt_text(&p),
+        Err(e) => err_text(&e),
+    });
+    writeln!(out, "project {} {} => {}", ftext(&f), ltt_text(&l), ans).unwrap();
+}
+
+/// `utcproject`: the same from a UTC date-time
+pub fn utcproject_line(out: &mut impl Write, z: &TimeZoneRef<'_>, f: Fields) {
+    let z = *z;
+    let ans = guarded(move || match UtcDateTime::new(f.0, f.1, f.2, f.3, f.4, f.5, f.6).and_then(|d| d.project(z)) {
+        Ok(p) => dt_text(&p),
+        Err(e) => err_text(&e),
+    });
+    writeln!(out, "utcproject {} => {}", ftext(&f), ans).unwrap();
+}
+
+/// projections worth making at instant `u`: from UTC, from each of the zone's own types (the same offset as the
+/// target is the interesting case) and from a foreign offset; ordinary seconds and second 60
+pub fn project_lines(out: &mut impl Write, rng: &mut Rng, b: &Built, z: &TimeZoneRef<'_>, u: i64) {
+    let mut srcs: Vec<LocalTimeType> = vec![LocalTimeType::utc()];
+    srcs.extend(b.raw.types.iter().take(3).copied());
+    srcs.push(LocalTimeType::with_ut_offset(*rng.pick(&[1, -1, 3600, -34200, 50400])).unwrap());
+    for l in srcs {
+        let off = l.ut_offset() as i64;
+        for leap60 in [false, true] {
+            let mut local = match u.checked_add(off) {
+                Some(x) => x,
+                None => continue,
+            };
+            if leap60 {
+                // the last second of the minute before `u`, written as second 60: it denotes `u` itself when
+                // `u` starts a minute, else the start of the next minute
+                local = local - local.rem_euclid(60) - 1;
+            }
+            if let Some(mut f) = fields_of(local, leap60) {
+                f.6 = (u as u32) % 1_000_000_000;
+                project_line(out, z, f, l);
+                if off == 0 {
+                    utcproject_line(out, z, f);
+                }
+            }
+        }
+    }
+}
+
 pub fn dtfromtn_line(out: &mut impl Write, z: &TimeZoneRef<'_>, total: i128) {
     let z = *z;
     let ans = guarded(move || match DateTime::from_total_nanoseconds(total, z) {
@@ -567,6 +616,9 @@ pub fn zone_lookups(out: &mut impl Write, rng: &mut Rng, thorough: bool, leaps_o
             lookup_line(out, &z, u);
             if i % 3 == 0 {
                 dtfrom_line(out, &z, u, (u as u32) % 1_000_000_007 % 1_000_000_001);
+            }
+            if i % 3 == 2 && u % 4 == 0 {
+                project_lines(out, rng, &b, &z, u);
             }
             if i % 3 == 1 {
                 // total nanoseconds around the instant: the last nanosecond of the previous second,
@@ -676,6 +728,19 @@ pub fn zonenew(out: &mut impl Write, rng: &mut Rng, thorough: bool) {
                 let mut r = raw.clone();
                 let k = rng.below((r.transitions.len() - 1) as u64) as usize;
                 r.transitions[k + 1].0 = if rng.chance(1, 2) { r.transitions[k].0 } else { r.transitions[k].0.saturating_sub(rng.range(1, 100)) };
+                zonenew_line(out, &r);
+            }
+        }
+        // (3b) a pair whose difference does not fit i64 (inverted), and the nearest pairs whose difference does
+        if rng.chance(1, 4) {
+            for (a, b2) in [(i64::MAX, i64::MIN), (i64::MAX, -2), (i64::MAX, -1), (1, i64::MIN), (0, i64::MIN), (i64::MIN, i64::MAX), (-2, i64::MAX)] {
+                let r = RawZone { transitions: vec![(a, 0), (b2, 0)], rule: None, ..raw.clone() };
+                zonenew_line(out, &r);
+            }
+            for l2 in [(i64::MIN, 2), (i64::MIN + 1, 2), (-i64::MAX, 0), (i64::MIN, 0)] {
+                let r = RawZone { leaps: vec![(1, 1), l2], ..raw.clone() };
+                zonenew_line(out, &r);
+                let r = RawZone { leaps: vec![(i64::MAX, 1), l2], ..raw.clone() };
                 zonenew_line(out, &r);
             }
         }
@@ -873,11 +938,34 @@ pub fn fields_of(t: i64, second60: bool) -> Option<Fields> {
     Some(f)
 }
 
+/// UTC instant denoted by a count-scale time (the last leap record at or before it applies)
+pub fn count_to_utc(leaps: &[(i64, i32)], t: i64) -> i64 {
+    let mut c = 0i64;
+    for (l, k) in leaps {
+        if *l <= t {
+            c = *k as i64;
+        }
+    }
+    t.saturating_sub(c)
+}
+
 /// local times worth searching in a zone: around every transition (table and rule) +- each offset
 pub fn zone_local_times(rng: &mut Rng, b: &Built, dense: bool) -> Vec<Fields> {
     let mut v = Vec::new();
     let offs: Vec<i64> = b.raw.types.iter().map(|t| t.ut_offset() as i64).collect();
     let mut instants: Vec<i64> = b.raw.transitions.iter().map(|x| x.0).collect();
+    if !b.raw.leaps.is_empty() {
+        // table times are on the count scale: the UTC instants they denote, and the leap records themselves
+        let extra: Vec<i64> = instants.iter().map(|&t| count_to_utc(&b.raw.leaps, t)).collect();
+        instants.extend(extra);
+        if b.raw.transitions.len() <= 4 {
+            for (l, c) in &b.raw.leaps {
+                instants.push(l.saturating_sub(*c as i64));
+            }
+        }
+        instants.sort();
+        instants.dedup();
+    }
     if let Some(TransitionRule::Alternate(a)) = &b.raw.rule {
         let base_year = b.raw.transitions.last().map(|x| (1970 + x.0 / 31_556_952).clamp(-2_000_000_000, 2_000_000_000)).unwrap_or(2000);
         for y in [base_year - 1, base_year, base_year + 1, base_year + 2] {
@@ -917,12 +1005,49 @@ pub fn zone_local_times(rng: &mut Rng, b: &Built, dense: bool) -> Vec<Fields> {
     v
 }
 
+/// a table transition (gap or overlap) within its own width of a leap record, so that a leap second lies between
+/// the candidate instants of a search near the transition
+pub fn leapgap_zone(rng: &mut Rng) -> Option<Built> {
+    for _ in 0..20 {
+        let leaps = mk_leaps(rng, true);
+        if leaps.is_empty() {
+            continue;
+        }
+        let (l, _) = *rng.pick(&leaps);
+        let w = *rng.pick(&[1i64, 2, 5, 60, 1800, 3600, 7200]);
+        let a = (rng.range(-48, 48) * 900) as i32;
+        let (o1, o2) = if rng.chance(3, 4) { (a, a + w as i32) } else { (a + w as i32, a) };
+        let k = match rng.below(6) {
+            0 => 0,
+            1 => 1,
+            2 => w - 1,
+            3 => w,
+            4 => -1,
+            _ => rng.range(0, w + 1),
+        };
+        let t = l - k;
+        let t1 = LocalTimeType::new(o1, false, Some(b"AAA")).ok()?;
+        let t2 = LocalTimeType::new(o2, true, Some(b"BBB")).ok()?;
+        let rule = match rng.below(3) {
+            0 => None,
+            _ => Some(TransitionRule::Fixed(t2)),
+        };
+        let raw = RawZone { transitions: vec![(t - 20_000_000, 0), (t, 1)], types: vec![t1, t2], leaps, rule };
+        let b = Built::from_raw(raw);
+        if b.zref().is_ok() {
+            return Some(b);
+        }
+    }
+    None
+}
+
 pub fn find_family(out: &mut impl Write, rng: &mut Rng, thorough: bool, with_findn: bool) {
     let n = if thorough { 5000 } else { 600 };
     for i in 0..n {
         // small gaps and large offsets so that several candidates overlap
         let opts = ZoneOpts { wild_offsets: i % 7 == 0, leaps: i % 3 == 0, deletions: i % 6 == 0, max_transitions: if i % 5 == 0 { 30 } else { 8 }, extreme_times: i % 11 == 0 };
-        let b = match mk_zone(rng, &opts) {
+        let b = if i % 8 == 3 { leapgap_zone(rng) } else { mk_zone(rng, &opts) };
+        let b = match b {
             Some(b) => b,
             None => continue,
         };
@@ -930,7 +1055,7 @@ pub fn find_family(out: &mut impl Write, rng: &mut Rng, thorough: bool, with_fin
             continue;
         }
         let z = b.zref().unwrap();
-        let locals = zone_local_times(rng, &b, thorough);
+        let locals = zone_local_times(rng, &b, thorough || i % 8 == 3);
         // sibling zone: the same rule days and times with both offsets shifted, searched right afterwards at the
         // same local times (a result that depended on the previous search would show here)
         let sibling: Option<Built> = match (&b.raw.rule, b.raw.transitions.is_empty()) {
